@@ -42,6 +42,8 @@ type c19Case struct {
 	ScanRead      int  `json:"scan_read,omitempty"`
 	ScanRenewMS   int  `json:"scan_renew_ms,omitempty"`
 	ScanNextAfter bool `json:"scan_next_after,omitempty"`
+	// Log: the client's logger ("" discards unevaluated; json / text: Debug-level slog handlers that marshal every attribute)
+	Log string `json:"log,omitempty"`
 	// ReleaseFirst: release the gate before (true) or after (false) Close runs -
 	// e.g. the dial completes just before or just after
 	ReleaseAfterMS int `json:"release_after_ms"`
@@ -74,6 +76,7 @@ func c19Run(c c19Case) Outcome {
 }
 
 func c19RunInBubble(c c19Case) (out Outcome) {
+	defer withLog(c.Log)()
 	cl := sim.New("rs1:16020", "rs2:16020", "rs3:16020")
 	cl.AddTable("t", [][]byte{[]byte("m")}, []string{"rs2:16020", "rs3:16020"}, 1000, false)
 	var scanRows []sim.ScanRow
@@ -483,6 +486,7 @@ func c19Gen(t *rapid.T) c19Case {
 	var c c19Case
 	c.Point = rapid.SampledFrom([]string{"idle", "inflight", "zk", "meta", "dial", "dial", "probe", "backoff", "dialrefused", "zkerror", "multistop", "lookedup"}).Draw(t, "point")
 	c.Warm = rapid.Bool().Draw(t, "warm")
+	c.Log = rapid.SampledFrom([]string{"", "", "", "json", "text"}).Draw(t, "log")
 	if c.Point == "idle" || c.Point == "multistop" {
 		c.Warm = true
 	}
